@@ -50,14 +50,14 @@ func TraverseAST(node ast.Node, env *Pass1) ast.Node {
 
 		// 評価後の式がまだ自分自身の名前を含む場合 (A EQU A, A EQU A+1, A EQU B / B EQU A) は
 		// 使用時の再帰評価が終わらずスタックオーバーフローになるため、定義を拒否します。
-		if referencesIdent(evalValueExp.TokenLiteral(), n.Id.Value) {
+		if !isStringLiteralExp(evalValueExp) && referencesIdent(evalValueExp.TokenLiteral(), n.Id.Value) {
 			log.Printf("error: EQU '%s' is defined in terms of itself: %s", n.Id.Value, evalValueExp.TokenLiteral())
 			return nil
 		}
 
 		// 算術を挟んだ循環 (A EQU B+1 / B EQU C*2 / C EQU A-3) は、評価後の式に自分の名前が
 		// 現れなくても、既に定義済みの EQU を辿ると自分に戻ってきます。これも拒否します。
-		if equReaches(env, evalValueExp.TokenLiteral(), n.Id.Value, map[string]bool{}) {
+		if !isStringLiteralExp(evalValueExp) && equReaches(env, evalValueExp.TokenLiteral(), n.Id.Value, map[string]bool{}) {
 			log.Printf("error: EQU '%s' is defined in terms of itself (through other EQU names): %s", n.Id.Value, evalValueExp.TokenLiteral())
 			return nil
 		}
@@ -315,13 +315,24 @@ func equReaches(env *Pass1, text string, name string, seen map[string]bool) bool
 			continue
 		}
 		seen[tok] = true
-		if body, ok := env.LookupMacro(tok); ok && body != nil {
+		if body, ok := env.LookupMacro(tok); ok && body != nil && !isStringLiteralExp(body) {
 			if equReaches(env, body.TokenLiteral(), name, seen) {
 				return true
 			}
 		}
 	}
 	return false
+}
+
+// isStringLiteralExp は、式が文字列リテラルそのもの (OEM EQU "OEM name" の右辺) かどうかを返します。
+// TokenLiteral() は引用符を落とすので、文字列の中の単語を名前の参照と取り違えないために使います。
+func isStringLiteralExp(e ast.Exp) bool {
+	imm, ok := e.(*ast.ImmExp)
+	if !ok || imm == nil {
+		return false
+	}
+	_, isString := imm.Factor.(*ast.StringFactor)
+	return isString
 }
 
 // referencesIdent は、式の文字列表現に識別子 name が (部分文字列ではなく) トークンとして現れるかを返します。
